@@ -57,13 +57,15 @@ pub struct Oracles {
     pub c14: bool,
     pub c19: bool,
     pub c11: bool,
+    /// Follow-up oracle of C09 at every quiescence.
+    pub c09: bool,
 }
 
 impl Oracles {
     pub fn all() -> Self {
         Oracles {
             c01: true, c02: true, c03: true, c04: true, c05: true,
-            c06: true, c14: true, c19: true, c11: true,
+            c06: true, c14: true, c19: true, c11: true, c09: true,
         }
     }
 }
